@@ -28,6 +28,15 @@ func factsC29() {
 	emitList("groupCompactUploadGuard", src+" Group.compact: how the error of the result's upload reaches the check in front of the marking loop: "+
 		"[assignment token of the innermost assignment whose right side runs block.Upload, its left side, kind of the loop-body statement that contains it, "+
 		"condition of the if statement that follows that statement, how that if ends]", uploadGuard(gc))
+	cf := parse("cmd/thanos/compact.go")
+	rc := fn(cf, "", "runCompact")
+	emitList("compactMainFnOrder", "cmd/thanos/compact.go runCompact: order of compaction, the sync before retention, retention and the partial-upload cleanup in compactMainFn / cleanPartialMarked",
+		callSeq(body(rc), "compactor.Compact", "ApplyRetentionPolicyByResolution", "BestEffortCleanAbortedPartialUploads", "cleanPartialMarked"))
+	emitStr("cleanPartialArg", "cmd/thanos/compact.go cleanPartialMarked: which blocks BestEffortCleanAbortedPartialUploads is given", argText(body(rc), "BestEffortCleanAbortedPartialUploads", 2))
+	ff := parse("pkg/block/fetcher.go")
+	lm := fn(ff, "BaseFetcher", "loadMeta")
+	emitList("loadMetaDecode", "pkg/block/fetcher.go BaseFetcher.loadMeta: how meta.json is read and parsed — a failed read (io.ReadAll) must stay apart from a failed parse (json.Unmarshal -> ErrorSyncMetaCorrupted -> partial)",
+		callSeq(body(lm), "io.ReadAll", "json.Unmarshal", "json.NewDecoder", "Decode"))
 	del := fn(f, "Group", "deleteBlock")
 	emitList("deleteBlockMarks", src+" Group.deleteBlock marks for deletion (it does not delete)", callSeq(body(del), "MarkForDeletion", "Delete"))
 }
